@@ -115,6 +115,22 @@ func RandISet(rng *rand.Rand, minShift, depth int) ISet {
 		r.Start, r.End = st, st+l
 		s.Recs = append(s.Recs, r)
 	}
+	// shallow schemes: every bin of every level occupied on one reference
+	// (the largest number of bins a reference can have)
+	if depth <= 2 && rng.Intn(3) == 0 {
+		ref := rng.Intn(s.NRefs)
+		for lv := 0; lv <= depth; lv++ {
+			w := (max + 2) >> uint(3*lv)
+			for k := 0; k < 1<<uint(3*lv); k++ {
+				st, en := k*w, k*w+1
+				if lv < depth {
+					st = k*w + w/8 - 1 // straddles the first boundary between children
+					en = st + 2
+				}
+				s.Recs = append(s.Recs, IRec{Ref: ref, Start: st, End: en, Mapped: true, Size: 40})
+			}
+		}
+	}
 	// a record inside a tile followed by one straddling the same tile's end
 	if rng.Intn(2) == 0 && max > 4*tile {
 		t := rng.Intn(max/tile - 2)
